@@ -66,7 +66,28 @@ class Engine:
         shutil.rmtree(md, ignore_errors=True)
         return r
 
+    def apalache(self, mc):
+        # inductive-invariant check with Apalache: Init => IndInv (length 0) and IndInv /\ Next => IndInv' (length 1)
+        t = time.time()
+        outdir = os.path.join(self.work, "apalache-" + mc["name"].split("(")[0])
+        ok = True
+        for args in (["--init=Init", "--inv=" + mc["inv"], "--length=0"], ["--init=" + mc["indinit"], "--inv=" + mc["inv"], "--length=1"]):
+            r = sh(["timeout", str(mc.get("timeout", 900)), "apalache-mc", "check", "--out-dir=" + outdir] + args + [mc["tla"]],
+                   cwd=os.path.join(self.spec, "apalache"))
+            if "EXITCODE: OK" not in r.stdout:
+                ok = False
+                print(r.stdout[-1500:])
+        shutil.rmtree(outdir, ignore_errors=True)
+        self.mc_stats.append({"name": mc["name"], "spec": "apalache/" + mc["tla"], "cfg": "inductive invariant " + mc["inv"], "ok": ok,
+                              "states_generated": 0, "distinct_states": 0, "tool": "apalache-mc 0.58 (symbolic, unbounded in the number of reads)",
+                              "obligations": 2, "discharged": 2 if ok else 0, "wall_s": round(time.time() - t, 1)})
+        if not ok:
+            raise ToolError("Apalache did not discharge the inductive invariant of " + mc["tla"])
+        return []
+
     def model_check(self, mc):
+        if mc.get("apalache"):
+            return self.apalache(mc)
         cfg = mc.get("cfg_" + self.tier, mc.get("cfg"))
         t = time.time()
         extra = ["-coverage", "1"] + mc.get("extra", [])
